@@ -234,9 +234,19 @@ Section Durable.
     end.
 
   (* auto_repair_indexes: the window (check_point, max(max_document_id, watermark)] *)
+  (* The ids the scan fetches.  The loop bounds and the absence of any early exit are GENERATED
+     facts (tools/gen_collflush.py reads auto_repair_indexes): lower bound check_point + 1, upper
+     bound max(max_document_id, watermark), no break / return / continue in the loop body, a
+     found document is handed to repair_document.  If the source loses one of them the window
+     of the model is empty and the recovery theorems no longer check. *)
+  Definition repair_window (ckpt top : nat) : list nat :=
+    if repair_from_checkpoint_plus_one && repair_upto_max_of_maxid_and_watermark &&
+       repair_scan_no_early_exit && repair_scan_found_doc_is_repaired
+    then seq (S ckpt) (top - ckpt) else [].
+
   Definition repair (b : backend) (h : handle) : handle :=
     let top := Nat.max (h_max h) (h_wm h) in
-    fold_left (repair_one b) (seq (S (b_ckpt b)) (top - b_ckpt b)) h.
+    fold_left (repair_one b) (repair_window (b_ckpt b) top) h.
 
   Definition is_some {A} (o : option A) : bool := match o with Some _ => true | None => false end.
 
